@@ -260,7 +260,18 @@ pub fn impl_(ctx: &Context, input: &DeriveInput) -> TokenStream {
                     }
                 };
                 let set_tag = quote! {
-                    #tag_ident::#ident.emplace_unchecked(__flatty_bytes)?;
+                    #tag_ident::#ident.emplace_unchecked(__flatty_tag_bytes)?;
+                };
+                // The tag is written only when the variant is known to fit,
+                // so that a failed initialization doesn't leave a tag without its data.
+                let check = if var.fields.is_empty() {
+                    quote! {}
+                } else {
+                    let type_list = type_list(var.fields.iter());
+                    quote! {
+                        iter::type_list!(#type_list).check_align_and_min_size(__flatty_bytes)
+                            .map_err(|e| e.offset(__flatty_offset))?;
+                    }
                 };
                 let body = collect_fields(&var.fields, get_item);
                 let pat_body = var
@@ -277,9 +288,10 @@ pub fn impl_(ctx: &Context, input: &DeriveInput) -> TokenStream {
                 quote! {
                     #accum
                     #init_ident::#ident #pat => {
-                        #set_tag
                         let __flatty_offset = <#self_ident<#self_args>>::DATA_OFFSET;
-                        let __flatty_bytes = __flatty_bytes.get_unchecked_mut(__flatty_offset..);
+                        let (__flatty_tag_bytes, __flatty_bytes) = __flatty_bytes.split_at_mut(__flatty_offset);
+                        #check
+                        #set_tag
                         #body
                     }
                 }
